@@ -10,3 +10,8 @@ import ZbossModel.Props.C07
 #print axioms Zboss.Link.C07_fresh_event
 #print axioms Zboss.Link.C07_fifo
 #print axioms Zboss.Link.grant_one_write
+#print axioms Zboss.Link.mon_rxOuts
+#print axioms Zboss.Link.mon_grant
+#print axioms Zboss.Link.mon_release
+#print axioms Zboss.Link.mon_step
+#print axioms Zboss.Link.C07_trace
